@@ -862,7 +862,7 @@ func (e *SpecEnv) call(n SCall) (Term, error) {
 		return Term{}, fmt.Errorf("spec %s result: %v", n.Fun, err)
 	}
 	rs := vc.sortOf(rty)
-	if sf.Body != nil {
+	if sf.Body != nil && !(sf.Opaque && !vc.revealAll && !vc.revealed[sf.Name]) {
 		t, err := scope.eval(sf.Body)
 		if err != nil {
 			return Term{}, fmt.Errorf("in spec %s: %v", n.Fun, err)
